@@ -543,7 +543,7 @@ Lemma recv_next_connecting_silent t g o :
   t_state t = CONNECTING -> t_rx_key t = None -> recv_next true t g = RxOk o -> o = RxNone.
 Proof.
   intros Hs Hk H. unfold recv_next in H. rewrite Hs, Hk in H. cbn [state_eqb negb orb is_some] in H.
-  destruct (u8 (dg_data g) 0) as [fb|]; [|discriminate].
+  destruct (u8 (dg_data g) 0) as [fb|]; [|inversion H; reflexivity].
   destruct ((19 <? fb) && (fb <? 64)).
   - destruct (dg_bio g && negb (dg_send_ok g)); [discriminate|].
     destruct (dg_ssl g); try discriminate.
@@ -716,7 +716,7 @@ Lemma recv_next_sound guard t g o :
   | RxRtcp p => dg_unprotect g = Some p /\ is_rtcp (dg_data g) = true /\ t_rx_key t <> None
   end.
 Proof.
-  unfold recv_next. destruct (u8 (dg_data g) 0) as [fb|]; [|discriminate].
+  unfold recv_next. destruct (u8 (dg_data g) 0) as [fb|]; [|intros H; inversion H; subst; exact I].
   destruct ((19 <? fb) && (fb <? 64)).
   - destruct (dg_bio g && negb (dg_send_ok g)); [discriminate|].
     destruct (dg_ssl g) as [d| |]; try discriminate.
@@ -780,4 +780,17 @@ Proof.
     by (symmetry; apply andb_true_iff; split; apply Z.ltb_lt; lia).
   destruct (t_rx_key t); [|contradiction]. cbn [is_some andb].
   destruct (is_rtcp (fb :: rest)); reflexivity.
+Qed.
+
+(* demultiplexing a datagram -- the empty one included -- never ends with an exception
+   other than ConnectionError *)
+Lemma recv_next_never_crashes guard t g : recv_next guard t g <> RxCrash.
+Proof.
+  unfold recv_next. destruct (u8 (dg_data g) 0) as [fb|]; [|discriminate].
+  destruct ((19 <? fb) && (fb <? 64)).
+  - destruct (dg_bio g && negb (dg_send_ok g)); [discriminate|].
+    destruct (dg_ssl g) as [d| |]; try discriminate.
+    destruct (nonempty d && t_receiver t && (negb guard || state_eqb (t_state t) CONNECTED)); discriminate.
+  - destruct ((127 <? fb) && (fb <? 192) && is_some (t_rx_key t)); [|discriminate].
+    destruct (dg_unprotect g); [|discriminate]. destruct (is_rtcp (dg_data g)); discriminate.
 Qed.
